@@ -27,7 +27,7 @@ var driveDomains = []string{
 var driveTags = []string{"t1", "t2", "t_3", "device_phone", "user_child", "a", "zz9"}
 var driveDns = []string{"A", "AAAA", "CNAME", "TXT", "MX", "HTTPS", "PTR"}
 var driveTypes = []string{"script", "image", "subdocument", "stylesheet", "object", "xmlhttprequest", "media", "font", "websocket", "ping", "other"}
-var driveNames = []string{"phone", "Frank's laptop", "kid,s|tablet", "Mom", "\"quoted\"", "tv-1", "a b"}
+var driveNames = []string{"phone", "Frank's laptop", "kid,s|tablet", "Mom", "\"quoted\"", "tv-1", "a b", "kids/tablet", "10.0.0.1/x", "a/8"}
 
 func rndSubset[T any](rnd *rand.Rand, xs []T, max int) []T {
 	n := rnd.Intn(max + 1)
